@@ -10,6 +10,9 @@ def make_table(rng, n_mut, n_samples, depth=(20, 400), tumour_content=True, erro
     """Rows (list of dict) of a valid input table: every mutation once per sample, major_cn >= max(minor_cn, 1)."""
     rows = []
     samples = ["S%s" % chr(65 + s) for s in range(n_samples)]
+    if n_mut % 2 == 0 and n_samples >= 2:
+        # sample names with embedded numbers of different lengths: natural and plain string order differ
+        samples = ["T%d" % v for v in [5, 12, 101, 7, 33, 2, 64, 9, 10, 11, 1, 3][:n_samples]]
     tc = {s: float(np.round(rng.uniform(0.3, 1.0), 3)) for s in samples}
     # a latent clonal structure so that the data are informative
     n_clones = int(rng.integers(1, max(2, min(4, n_mut)) + 1))
